@@ -58,7 +58,7 @@ class Sym:
     def __eq__(self, o):
         if o is self:
             return True
-        if type(o) is Sym:
+        if isinstance(o, Sym):
             if o.s != self.s:
                 return False
             if o.i == self.i:
@@ -69,7 +69,7 @@ class Sym:
     def __ne__(self, o):
         if o is self:
             return False
-        if type(o) is Sym:
+        if isinstance(o, Sym):
             if o.s != self.s:
                 return True
             if o.i == self.i:
